@@ -377,8 +377,36 @@ func TestQueueLinearizable(t *testing.T) {
 			}
 			ops = linContentionOps
 		}
+		// "close after free": the queue is full and producers are parked
+		// in BlockingAdd; one thread frees a slot, closes the queue at
+		// once and then looks at it (Len, Add) - whatever a woken
+		// producer does must be consistent with what that thread saw
+		closeAfterFree := contention && rapid.IntRange(0, 3).Draw(t, "closeAfterFree") == 0
+		if closeAfterFree {
+			soft := c.Opts.Soft
+			if soft <= 0 {
+				soft = c.Opts.Hard
+			}
+			c.Prefill = soft
+			y := func() int { return rapid.IntRange(0, 2).Draw(t, "yield") }
+			next++
+			c.Prog.Threads = append(c.Prog.Threads, []vkit.Step{
+				{Op: "Len", Ctx: -1, Yield: 4}, // lets the producers park first
+				{Op: "Remove", Ctx: -1, Yield: rapid.IntRange(0, 8).Draw(t, "settle")},
+				{Op: "Close", Ctx: -1, Yield: y()},
+				{Op: "Len", Ctx: -1, Yield: y()},
+				{Op: "Add", V: next, Ctx: -1, Yield: y()},
+				{Op: "Len", Ctx: -1, Yield: y()},
+			})
+			closes = 1
+			ng--
+			ops = []string{"BlockingAdd", "BlockingAdd", "Len"}
+		}
 		for g := 0; g < ng; g++ {
 			n := rapid.IntRange(1, 7).Draw(t, "nops")
+			if closeAfterFree {
+				n = rapid.IntRange(1, 2).Draw(t, "nopsParked")
+			}
 			var th []vkit.Step
 			for i := 0; i < n; i++ {
 				s := vkit.Step{Op: rapid.SampledFrom(ops).Draw(t, "op"), Ctx: -1, Yield: rapid.IntRange(0, 4).Draw(t, "yield")}
